@@ -47,6 +47,15 @@ var kernelNotes = map[string]struct {
 func runKernels(prop, tier, solver string, seed int) int {
 	t0 := time.Now()
 	specs := kernelPlan(prop, tier)
+	if len(specs) == 0 {
+		l2, corpus, err := l2Specs(prop, tier)
+		defer corpus.Cleanup()
+		if err != nil {
+			fmt.Printf("INCONCLUSIVE property=%s corpus preparation failed: %v\n", prop, err)
+			return 2
+		}
+		specs = l2
+	}
 	if s := os.Getenv("VERIF_KERNEL"); s != "" {
 		var i int
 		fmt.Sscanf(s, "%d", &i)
@@ -101,7 +110,13 @@ func runKernels(prop, tier, solver string, seed int) int {
 				inconclusive = append(inconclusive, fmt.Sprintf("kernel %q: unwinding bound too small", r.Spec))
 				continue
 			}
-			path, err := eng.WriteKernelReplay(filepath.Join(verifDir, "replay"), specs[i], *cex)
+			var path string
+			var err error
+			if specs[i].Program != nil {
+				path, err = eng.WriteL2Replay(filepath.Join(verifDir, "replay"), specs[i], *cex, "flows")
+			} else {
+				path, err = eng.WriteKernelReplay(filepath.Join(verifDir, "replay"), specs[i], *cex)
+			}
 			if err != nil {
 				inconclusive = append(inconclusive, "cannot write replay: "+err.Error())
 				continue
